@@ -66,7 +66,19 @@ def _sig_regexmap(rep):
 def _sig_wsfacets(rep):
     return rep['kind'] == 'data race' and bool(rep['tops']) and all('TraverseSchema::getElementAttValue' in t for t in rep['tops'])
 
+_COMPACT = ('RangeToken::compactRanges', 'RangeToken::sortRanges')
+def _sig_lazycompact(rep):
+    # a process-wide category token (allocated while Initialize() built the range map) is sorted/compacted in place on first need
+    if rep['kind'] != 'data race' or len(rep['stacks']) < 2: return False
+    if not any(any(c in f for c in _COMPACT) for s in rep['stacks'][:2] for f in s[:2]): return False
+    if not all(any('RangeToken::' in f for f in s[:2]) for s in rep['stacks'][:2]): return False
+    return any(('buildRanges' in f or 'initializeRangeTokenMap' in f or 'buildTokenRanges' in f) for f in rep['loc'])
+
 KNOWN = {
+    'C17-rangetoken-shared-lazy-compact': dict(sig=_sig_lazycompact, warm='rangetoken',
+        facs=('rangetoken:complement', 'rangetoken:unicode', 'rangetoken:block', 'rangetoken:xml'),
+        what='process-wide category RangeTokens (e.g. IsAlpha, IsAlnum, ascii:*) are left unsorted/uncompacted by Initialize() and are compacted in place by the first '
+             'complementRanges (RangeTokenMap::getRange) / intersectRanges / subtractRanges that takes them as argument, while other threads read them'),
     'C17-traverseschema-wsfacets-lazy': dict(sig=_sig_wsfacets, warm='schemaload', facs=('schema-load',),
         what='TraverseSchema::getElementAttValue fills the function-local static wsFacets[] lazily (flag set before the table is filled) when two threads load their first schema concurrently'),
     'C17-lockedpool-lazy-contentmodel': dict(sig=_sig_contentmodel, warm='pool', facs=('shared-pool',),
@@ -83,6 +95,7 @@ KNOWN = {
         what='RangeToken::getCaseInsensitiveToken caches a token owned by the calling regex in the process-wide category token without synchronisation (data race; use-after-free once that regex is destroyed)'),
 }
 ACTIVE = [
+    'C17-rangetoken-shared-lazy-compact',
     'C17-lockedpool-lazy-contentmodel',
     'C17-shared-regex-lazy-map',
     'C17-rangetoken-casei-cache',
